@@ -246,6 +246,40 @@ func genOpenVPN(r *vrng, ctx caddy.Context) mcase {
 }
 
 func genHTTP(r *vrng, ctx caddy.Context) mcase {
+	if r.intn(6) == 0 {
+		// path filters on request targets with percent-escapes, over HTTP/1.1 and over HTTP/2 with prior knowledge: the filter
+		// sees the decoded path whichever way the request arrives
+		pcs := []struct{ sub, target, want string }{
+			{`[{"path":["/files/my report"]}]`, "/files/my%20report", "yes"},
+			{`[{"path":["/files/my report"]}]`, "/files/other", "no"},
+			{`[{"not":[{"path":["/admin*"]}]}]`, "/%61dmin/users", "no"},
+			{`[{"not":[{"path":["/admin*"]}]}]`, "/public", "yes"},
+			{`[{"path":["/a b/*"]}]`, "/a%20b/c?x=%20", "yes"},
+			{`[{"path":["/plain"]}]`, "/plain?q=1", "yes"},
+		}
+		pc := pcs[r.intn(len(pcs))]
+		pm := &l4http.MatchHTTP{}
+		if err := json.Unmarshal([]byte(pc.sub), pm); err != nil {
+			panic(err)
+		}
+		prov(ctx, pm)
+		var msg []byte
+		if r.intn(2) == 0 {
+			msg = []byte("GET " + pc.target + " HTTP/1.1\r\nHost: example.com\r\n\r\n")
+		} else {
+			frame := func(typ, flags byte, stream uint32, payload []byte) []byte {
+				f := []byte{byte(len(payload) >> 16), byte(len(payload) >> 8), byte(len(payload)), typ, flags, 0, 0, 0, 0}
+				binary.BigEndian.PutUint32(f[5:], stream)
+				return append(f, payload...)
+			}
+			msg = append([]byte("PRI * HTTP/2.0\r\n\r\nSM\r\n\r\n"), frame(4, 0, 0, nil)...)
+			hp := []byte{0x82, 0x86, 0x44, byte(len(pc.target))} // :method GET, :scheme http, :path (literal, indexed name 4)
+			hp = append(hp, pc.target...)
+			hp = append(append(hp, 0x41, 0x0b), []byte("example.com")...)
+			msg = append(msg, frame(1, 5, 1, hp)...)
+		}
+		return mcase{name: "http", m: pm, msg: msg, model: true, rawJSON: pc.sub, expect: pc.want}
+	}
 	m := &l4http.MatchHTTP{}
 	subs := []string{`[]`, `[]`, `[{"host":["example.com"]}]`, `[{"method":["GET"]}]`, `[{"path":["/"]}]`, `[{"host":["example.com"],"method":["GET"]}]`}
 	sub := subs[r.intn(len(subs))]
